@@ -426,6 +426,24 @@ ToFixed(x, fd)       == ToFixedP(x, fd, PreShort(x), PreRound("toFixed", x, fd))
 ToExponential(x, fd) == ToExponentialP(x, fd, PreShort(x), PreRound("toExponential", x, fd))
 ToPrecision(x, pd)   == ToPrecisionP(x, pd, PreShort(x), PreRound("toPrecision", x, pd))
 
+(* 15.7.4 (introduction): "this Number value" requires that the this value   *)
+(* is a Number or a Number object, otherwise a TypeError is thrown.  tv is a *)
+(* this value of another primitive type.  In toFixed the TypeError (step 3)  *)
+(* comes after the RangeError for fractionDigits (step 2).                   *)
+(* D62 / D76 / D86: the implementation applies ToNumber to the this value.   *)
+PrimText(v) == CASE v.t = "str" -> v.s [] v.t = "bool" -> (IF v.b THEN S_true ELSE S_false)
+                 [] v.t = "null" -> S_null [] v.t = "undef" -> S_undefined
+ThisFixed(tv, fd) ==
+    IF ~InIntRange(ArgInt(fd), 0, 20) THEN T("RangeError")
+    ELSE IF D("D62_tofixed_this_not_number") THEN ToFixed(ToNumberPrim(tv), fd)
+    ELSE T("TypeError")
+ThisExponential(tv, fd) ==
+    IF D("D76_toexponential_this_not_number") THEN ToExponential(ToNumberPrim(tv), fd) ELSE T("TypeError")
+ThisPrecision(tv, pd) ==
+    IF D("D86_toprecision_this_not_number")
+    THEN (IF pd.t = "undef" THEN RS(PrimText(tv)) ELSE ToPrecision(ToNumberPrim(tv), pd))
+    ELSE T("TypeError")
+
 -----------------------------------------------------------------------------
 (* 15.1.2.2 parseInt(string, radix); string is a String value                *)
 DigitVal(u) == IF IsDigit(u) THEN u - 48
